@@ -8,7 +8,7 @@ CONSTANTS
   Crossings <- MCCrossings
   Deltas <- MCDeltas
   OffsetVecs <- MCOffsetVecsQuick
-  MaxLosses <- MCMaxLosses
+  MaxLossVecs <- MCMaxLossVecsQuick
 INIT Init
 NEXT Next
 INVARIANT TypeOK
